@@ -166,6 +166,17 @@ func init() {
 			}
 		},
 	}
+	plans["C04"] = &Plan{
+		Level: "exploration",
+		Rule: "(a) all 512 encoder option sets x 9 kinds of values without a JSON representation (pointer/map/slice/interface cycles, chan, func, complex, invalid json.Number): an error is required; (b) option sets visited round-robin (every set in every 32 consecutive cases of the 16 batches) against seeded values: pure (method-free) random types with valid UTF-8 and finite floats -> output must be exactly one well-formed value without surrounding bytes, valid UTF-8 under ValidateString, free of raw <>& under EscapeHTML, and must decode back (with encoding/json and with sonic) to what encoding/json's own round trip gives (float bits, ints, strings, containers; nil==empty); NaN/Inf values -> error unless EncodeNullForInfOrNan; invalid UTF-8 values and catalogue types with marshalers -> well-formedness (not judged under NoQuoteTextMarshaler/NoValidateJSONMarshaler, which are documented ways to emit non-JSON). distinct = hash(type, option set, value dump)",
+		Assumptions: stdAssumptions, MinEvals: 20000, MinEvalsThorough: 1000000,
+		Runs: func(string) []*Run {
+			return []*Run{
+				{Name: "jit", Flavor: "plain", NBatch: 16, TimeoutS: n(900, 3000)},
+				{Name: "vm", Flavor: "plain", NBatch: n(4, 16), Env: []string{"SONIC_ENCODER_USE_VM=1"}, TimeoutS: n(900, 3000)},
+			}
+		},
+	}
 	plans["C11"] = &Plan{
 		Level:       "exploration",
 		Rule:        "the C01 case list (same seed => same (type, configuration, pre-populated destination, document) cases) is decoded in three processes: jitdec, SONIC_USE_OPTDEC=1, SONIC_USE_OPTDEC=1+SONIC_USE_FASTMAP=1; each case yields a digest (error-or-not + canonical deep dump of the destination) and the digests are compared across processes; every process also reports acceptance of a structurally malformed document. distinct = hash(type descriptor, config, document); non-trivial = document length >= 2. The verif bridge reports the implementation each process really ran; identical configurations make the run inconclusive",
